@@ -1429,7 +1429,7 @@ package machine
 // ---- C17 / C20: time-slice helpers used by the history queries ----
 
 //@ func (t Time) Filter(idxs []int) (ret Time)
-//@   props C17 C20
+//@   props C17 C20 C14
 //@   requires idx: forall i int :: 0 <= i && i < len(idxs) ==> idxs[i] >= 0
 //@   ensures  len: len(ret) == len(idxs) && fresh(ret)
 //@   ensures  def: forall i int :: 0 <= i && i < len(idxs) ==> ret[i] == (idxs[i] < len(t) ? t[idxs[i]] : 0)
@@ -1600,3 +1600,19 @@ package machine
 //@   requires nn: e != nil
 //@   ensures copy: r != nil && r.Name == e.Name && r.TransitionId == e.TransitionId && r.IsCheck == e.IsCheck
 //@   ensures id: e.machine == nil ==> r.MachineId == e.MachineId
+
+// Detaching a tracer removes exactly the first tracer with that id; every other
+// tracer stays bound, in order (C14: each bound tracer keeps seeing every transition).
+//@ func (tr Tracer) TracerId() (r string)
+//@   trusted interface contract: the id of a tracer is a fixed attribute of it
+//@   pure
+//@ func (m *Machine) TracerDetach(id string) (err error)
+//@   props C14 C12
+//@   requires locks: unlocked(m.tracersMx) && unlocked(m.logEntriesLock)
+//@   requires nn: forall i int :: 0 <= i && i < len(m.tracers) ==> m.tracers[i] != nil
+//@   assigns m.tracers, m.tracersMx, m.logEntries, m.logEntriesLock
+//@   ensures disposing: old(m.disposing) ==> unchanged(m.tracers)
+//@   ensures removed: err == nil && !old(m.disposing) ==> (exists k int :: 0 <= k && k < old(len(m.tracers)) && old(m.tracers)[k].TracerId() == id && (forall j int :: 0 <= j && j < k ==> old(m.tracers)[j].TracerId() != id) && len(m.tracers) == old(len(m.tracers)) - 1 && (forall j int :: 0 <= j && j < k ==> m.tracers[j] == old(m.tracers)[j]) && (forall j int :: k <= j && j < len(m.tracers) ==> m.tracers[j] == old(m.tracers)[j + 1]))
+//@   ensures missing: err != nil ==> unchanged(m.tracers) && (forall j int :: 0 <= j && j < len(m.tracers) ==> m.tracers[j].TracerId() != id)
+//@   ensures locks: unlocked(m.tracersMx)
+//@   loop 1 invariant scan: unchanged(m.tracers) && locked(m.tracersMx) && (forall j int :: 0 <= j && j < idx1 ==> m.tracers[j].TracerId() != id)
